@@ -16,7 +16,6 @@ package yamux
 import (
 	"context"
 	"crypto/rand"
-	"errors"
 	"fmt"
 	"io"
 	"net"
@@ -118,6 +117,7 @@ type vfC02Chan struct {
 	werr     []string
 	closed   bool // CloseWrite issued
 	eof      bool
+	done     bool // terminal outcome reached (clean EOF or error)
 }
 
 type vfC02MuxRun struct {
@@ -133,6 +133,7 @@ type vfC02MuxRun struct {
 	// a glitch of the underlying connection was armed: the session may end (every error of the connection is
 	// fatal for the muxer) or go on untouched; errors are allowed from here on, garbling never
 	loose atomic.Bool
+	cut   func(now bool) // armed cut of the connection (now: fire it at once)
 	log   []any
 }
 
@@ -142,7 +143,7 @@ func (r *vfC02MuxRun) mismatch(step int, class, what string, exp, got any) {
 	if r.abandoned.Load() && class != "mux-stall" {
 		return // the watchdog tore the sessions down: what the walk sees from then on is the harness's doing
 	}
-	if r.loose.Load() && class != "mux-bytes" && class != "mux-panic" && class != "MACHINERY" && class != "mux-stall" {
+	if r.loose.Load() && class != "mux-bytes" && class != "mux-panic" && class != "MACHINERY" && class != "mux-stall" && class != "mux-truncated-eof" {
 		return // after a glitch of the connection only garbling counts (errors, resets, early EOF are allowed)
 	}
 	r.mu.Lock()
@@ -271,18 +272,26 @@ func (r *vfC02MuxRun) body(addCloser func(func())) {
 			}
 			n, err := c.r.Read(buf[:b:b])
 			r.note(map[string]any{"op": "read", "ch": c.name, "real": b, "n": n, "err": fmt.Sprint(err)})
-			if err != nil && errors.Is(err, io.EOF) && c.closed && c.led.Delivered+n == c.led.Written {
-				c.eof = true // the last bytes and the end of the stream in one call
+			// END OF STREAM: a clean end is io.EOF itself (what io.ReadAll / io.Copy take for "complete"); an error
+			// that merely wraps io.EOF is an error
+			if err == io.EOF && c.closed && c.led.Delivered+n == c.led.Written {
+				c.eof, c.done = true, true // the last bytes and the end of the stream in one call
 				err = nil
 			}
-			if err != nil && errors.Is(err, io.EOF) {
-				r.mismatch(si, "mux-early-eof", fmt.Sprintf("%s: EOF after %d bytes, %d were written before CloseWrite", c.name, c.led.Delivered+n, c.led.Written), c.led.Written, c.led.Delivered+n)
+			if err == io.EOF {
+				if n > 0 {
+					l1(si, c, c.led.OnRead(buf[:b], n, nil, true))
+				}
+				c.done = true
+				r.mismatch(si, "mux-truncated-eof", fmt.Sprintf("%s: the stream ended CLEANLY (io.EOF) after %d bytes although %d were written (CloseWrite issued: %v): the reader cannot tell it from a complete one", c.name, c.led.Delivered, c.led.Written, c.closed), "error, or EOF after everything", "io.EOF")
 				return false
 			}
 			if l1(si, c, c.led.OnRead(buf[:b], n, err, false)) {
+				c.done = true
 				return false
 			}
 			if err != nil {
+				c.done = true // terminal outcome: error
 				return false
 			}
 		}
@@ -299,7 +308,8 @@ func (r *vfC02MuxRun) body(addCloser func(func())) {
 			r.mismatch(si, "mux-bytes", fmt.Sprintf("%s: %d bytes delivered after everything written had been read", c.name, n), 0, n)
 			return false
 		}
-		if !errors.Is(err, io.EOF) {
+		c.done = true
+		if err != io.EOF {
 			r.mismatch(si, "mux-eof-missing", fmt.Sprintf("%s: read after the writer's CloseWrite and all data: %v", c.name, err), "EOF", fmt.Sprint(err))
 			return false
 		}
@@ -333,7 +343,42 @@ func (r *vfC02MuxRun) body(addCloser func(func())) {
 			}
 			r.note(map[string]any{"op": "glitch", "d": op.S("d"), "kind": op.S("kind")})
 			r.res.Case("glitch/" + op.S("kind"))
+		case "cut":
+			// the connection is cut: the reader of direction d gets some more bytes, then the connection ends for
+			// both directions with a plain EOF or with an error, whatever streams are open and whatever is in flight
+			fw, bw := cb.In, ca.In // a -> b
+			if op.S("d") == "ba" {
+				fw, bw = ca.In, cb.In
+			}
+			endErr := error(io.EOF)
+			if op.S("kind") == "cutrst" {
+				endErr = vfc02.ErrConnReset
+			}
+			left := 0
+			switch op.I("n") {
+			case 1:
+				left = r.pick.Pick([]int{1, 11, 12, 13, 30, 100}, r.w.Walk, si)
+			case 2:
+				left = r.pick.Pick([]int{4096, 65548, 70000, 200000}, r.w.Walk, si)
+			}
+			r.loose.Store(true)
+			r.cut = func(now bool) {
+				if now {
+					left = 0
+				}
+				fw.CutAfter(left, endErr, func() { bw.Kill(endErr) })
+			}
+			r.cut(false)
+			for _, c := range chans {
+				c.led.MarkFault(1 << 61)
+			}
+			r.note(map[string]any{"op": "cut", "d": op.S("d"), "kind": op.S("kind"), "after_bytes": left, "streams_open": len(chans) / 2})
+			r.res.Case(fmt.Sprintf("cut/%s/%d/%d", op.S("kind"), op.I("n"), len(chans)/2))
+			r.res.Inc("mux_cuts", 1)
 		case "open":
+			if r.cut != nil {
+				break // (a cut connection opens no more streams)
+			}
 			s := op.I("s")
 			opener, accepter := ma, mb
 			if op.S("by") == "b" {
@@ -376,6 +421,9 @@ func (r *vfC02MuxRun) body(addCloser func(func())) {
 			r.res.Case("open/" + op.S("by"))
 		case "write":
 			c := chans[vfC02ChanID(op.I("s"), op.S("d"))]
+			if c == nil {
+				break
+			}
 			k := op.I("k")
 			K := r.pick.Pick(vfC02MuxWrite[k], r.w.Walk, si)
 			if c.led.Written+K > len(c.led.Data) {
@@ -392,13 +440,30 @@ func (r *vfC02MuxRun) body(addCloser func(func())) {
 			r.res.Case(fmt.Sprintf("write/%s/%d", op.S("d"), k))
 		case "closewrite":
 			c := chans[vfC02ChanID(op.I("s"), op.S("d"))]
+			if c == nil {
+				break
+			}
 			c.closed = true
 			c.jobs <- vfC02Job{close: true}
 			r.note(map[string]any{"op": "closewrite", "ch": c.name})
 			r.res.Case("closewrite/" + op.S("d"))
 		case "read":
 			c := chans[vfC02ChanID(op.I("s"), op.S("d"))]
-			r.res.Case(fmt.Sprintf("read/%s/%d/%v/%v", op.S("d"), op.I("b"), op.B("eof"), op.B("halfclosed")))
+			if c == nil || c.done {
+				break // (after a cut the real stream may have reached its terminal outcome before the model's)
+			}
+			r.res.Case(fmt.Sprintf("read/%s/%d/%v/%v/%s", op.S("d"), op.I("b"), op.B("eof"), op.B("halfclosed"), op.S("term")))
+			if r.cut != nil {
+				// the connection is (being) cut: data, an error or - only for a complete half-closed stream - a clean
+				// end may come; one read, whatever the model expects
+				if op.S("term") == "err" {
+					r.cut(true)
+				}
+				if c.led.Delivered < c.led.Written || c.closed || op.S("term") == "err" {
+					readTo(si, c, c.led.Delivered+1, op.I("b"))
+				}
+				break
+			}
 			if op.B("eof") {
 				ok = expectEOF(si, c)
 				break
@@ -416,6 +481,25 @@ func (r *vfC02MuxRun) body(addCloser func(func())) {
 		ids = append(ids, id)
 	}
 	sort.Ints(ids)
+	if r.cut != nil {
+		// the connection ends now at the latest; every reader then comes to its terminal outcome: a clean EOF only
+		// where the writer half-closed and everything arrived, an error otherwise (>= 2 streams may be open)
+		r.cut(true)
+		for _, id := range ids {
+			c := chans[id]
+			for it := 0; it < 1<<16 && !c.done; it++ {
+				readTo(len(r.w.Steps), c, c.led.Delivered+(1<<20), 2)
+			}
+			if c.eof {
+				r.res.Inc("mux_cut_clean_eof_complete", 1)
+			} else {
+				r.res.Inc("mux_cut_terminal_error", 1)
+			}
+			close(c.jobs)
+		}
+		r.res.Count(1, steps)
+		return
+	}
 	for _, id := range ids {
 		c := chans[id]
 		if ok {
@@ -611,7 +695,7 @@ func vfC02MuxStress(res *vfh.Result, stack string, a, b *vfC02SecPeer, seed uint
 				for it := 0; ; it++ {
 					b := pick.Pick(sizes, id, 3, it)
 					n, err := rd.Read(buf[:b:b])
-					eof := err != nil && errors.Is(err, io.EOF)
+					eof := err == io.EOF
 					if eof && led.Delivered+n != total {
 						report("mux-early-eof", fmt.Sprintf("stream %d dir %d: EOF after %d of %d bytes", s, d, led.Delivered+n, total), total, led.Delivered+n)
 						return
